@@ -200,6 +200,11 @@ func main() {
 					break
 				}
 			}
+		} else if st.SplitAt > 0 && st.SplitAt < len(st.Send) {
+			if _, werr = os.Stdout.Write(st.Send[:st.SplitAt]); werr == nil {
+				time.Sleep(time.Duration(st.SplitDelayMs) * time.Millisecond)
+				_, werr = os.Stdout.Write(st.Send[st.SplitAt:])
+			}
 		} else {
 			_, werr = os.Stdout.Write(st.Send)
 		}
